@@ -1,3 +1,287 @@
-import DnsModel.Script
+/-
+  C08 — A mutated packet object always matches a fresh parse of its own bytes.
+
+  `Consistent pp` is the invariant: the object is a plain object (`PlainObj`: header, question, three
+  lists of canonical record pieces, with the section starts and counts that follow from them, flag
+  "may contain pointers" cleared) and its question cache is empty or holds the question.
+  * `consistent_view`: a consistent object's bytes are accepted by the parser, which reports exactly
+    the section starts the object holds; the header counts are the numbers of records; a section start
+    is absent exactly when the section is empty; the bytes are pointer-free (so the cleared flag is
+    justified); reading the question through the cache gives what a cache-less read gives.
+  * every successful operation keeps the invariant: `after_decompression` (what `recompute`, and the
+    first `set_raw_name` / `delete`, make of any accepted packet), `insert_*`, `delete`, `set_ttl`,
+    `set_ip`, `set_name`, `header`; by induction, any sequence of them does.
+  * `renamed_cursor`: after `set_raw_name` the cursor still designates the record (same start, the new
+    name end, the new end) and `next` yields the record that followed, or the end of the section.
+
+  Partial: the EDNS summary fields (position and count of options, version, flags, extended rcode)
+  are carried through each operation unchanged or shifted (see the conclusions of C09's theorems and
+  `PlainObj.delete_at`) but their agreement with a fresh parse of the new bytes is not proved here;
+  nor are rename / recompute at object level, question insertion/deletion (KF1, KF4), OPT as the target
+  (KF5), clearing QR with answers present (KF3), setters on a still-compressed object (KF2): all of
+  these are covered by the script correspondence and the view oracle.
+-/
+import DnsModel.Theorems.C09
+import DnsModel.Theorems.C06
+import DnsModel.Theorems.C11
 namespace Dns.C08
+open Dns Res
+
+/-- the question a plain object holds, as the cache stores it -/
+def questionOf {pp : PP} (P : PlainObj pp) : Bytes × Nat × Nat := (encLabels P.qls ++ [0], get16 P.q4 0, get16 P.q4 2)
+
+/-- **the invariant** -/
+def Consistent (pp : PP) : Prop := ∃ P : PlainObj pp, pp.cached = none ∨ pp.cached = some (questionOf P)
+
+theorem PlainObj.pointerFree {pp : PP} (P : PlainObj pp) : ∃ L : C03.Layout pp.packet, C06.PointerFree pp.packet L := by
+  rw [P.bytes]
+  obtain ⟨_, L, hqe, hvq, _, _, _, _, _, _, _, _, _, _, _, hself⟩ :=
+    assemble P.hdr P.q4 P.qls P.A P.N P.R P.o2 P.o3 P.o4 P.hh P.hqd P.hgq P.hq4 P.hcl P.hA P.hN P.hR P.hca P.hcn P.hcr P.hqr
+  refine ⟨L, ⟨P.qls, ?_, by rw [hqe]; omega⟩, ?_⟩
+  · have := plainAt_of_eq (u := P.hdr ++ ((encLabels P.qls ++ [0]) ++ P.q4) ++ P.A.flatten ++ P.N.flatten ++ P.R.flatten)
+      (A := P.hdr) (B := P.q4 ++ P.A.flatten ++ P.N.flatten ++ P.R.flatten) (ls := P.qls) (by simp) P.hgq.1 P.hgq.2.1 P.hgq.2.2
+    rw [P.hh] at this
+    exact this
+  · intro r hr
+    have hs := hself r hr
+    simp only [List.mem_append] at hr
+    rcases hr with (hr | hr) | hr
+    · obtain ⟨ob, oa, hpos⟩ := L.ha.mem_pos r hr
+      exact plainRec_of_selfCanon hpos hs
+    · obtain ⟨ob, oa, hpos⟩ := L.hn.mem_pos r hr
+      exact plainRec_of_selfCanon hpos hs
+    · obtain ⟨ob, oa, hpos⟩ := L.hr.mem_pos r hr
+      exact plainRec_of_selfCanon hpos hs
+
+/-- reading the question of a plain object whose cache is empty: the question it holds, now cached -/
+theorem question_read {pp : PP} (P : PlainObj pp) (hc : pp.cached = none) :
+    questionRaw0 pp = .ok (some (questionOf P), { pp with cached := some (questionOf P) }) := by
+  have hl := P.len
+  have hv : ValidName pp.packet 12 P.qls (12 + labSum P.qls + 1) := by
+    have := validName_at (u := pp.packet) (A := P.hdr) (B := P.q4 ++ P.A.flatten ++ P.N.flatten ++ P.R.flatten) (ls := P.qls)
+      (by rw [P.bytes]; simp) P.hgq.1 P.hgq.2.1 P.hgq.2.2
+    rw [P.hh] at this
+    exact this
+  have hcopy := copyUncompressedName_valid hv
+  have e : pp.packet = (P.hdr ++ (encLabels P.qls ++ [0])) ++ P.q4 ++ (P.A.flatten ++ P.N.flatten ++ P.R.flatten) := by
+    rw [P.bytes]; simp
+  have hal : (P.hdr ++ (encLabels P.qls ++ [0])).length = 12 + labSum P.qls + 1 := by
+    simp only [List.length_append, P.hh, encLabels_length, List.length_cons, List.length_nil]; omega
+  have hag : Agree P.q4 pp.packet 0 (12 + labSum P.qls + 1) 4 := by
+    have := agree_of_append P.q4 (P.hdr ++ (encLabels P.qls ++ [0])) (P.A.flatten ++ P.N.flatten ++ P.R.flatten) 0 4 (by rw [P.hq4]; omega)
+    have hq : (P.q4.drop 0).take 4 = P.q4 := by simp [List.take_of_length_le (Nat.le_of_eq P.hq4)]
+    rw [hq, ← e, hal] at this
+    exact this
+  have g0 : get16 pp.packet (12 + labSum P.qls + 1) = get16 P.q4 0 := by
+    have := hag.get16 (i := 0) (by omega); simpa using this
+  have g2 : get16 pp.packet (12 + labSum P.qls + 1 + 2) = get16 P.q4 2 := by
+    have := hag.get16 (i := 2) (by omega); simpa using this
+  have ht : be16 pp.packet (12 + labSum P.qls + 1) = .ok (get16 P.q4 0) := by
+    rw [(be16_ok_of_le (p := pp.packet) (i := 12 + labSum P.qls + 1) (by omega)).1, g0]
+  have hcl : be16 pp.packet (12 + labSum P.qls + 1 + 2) = .ok (get16 P.q4 2) := by
+    rw [(be16_ok_of_le (p := pp.packet) (i := 12 + labSum P.qls + 1 + 2) (by omega)).1, g2]
+  have hsl : sliceFrom pp.packet (12 + labSum P.qls + 1) = .ok (pp.packet.drop (12 + labSum P.qls + 1)) := by
+    simp [sliceFrom]; omega
+  simp [questionRaw0, hc, P.oq, hcopy, hsl, DNS_RR_TYPE_OFFSET, DNS_RR_CLASS_OFFSET, ht, hcl, questionOf]
+
+/-- **a consistent object matches a fresh parse of its bytes** -/
+theorem consistent_view {pp : PP} (h : Consistent pp) :
+    (∃ v, parse pp.packet = .ok v ∧ v.offsetQuestion = pp.offsetQuestion ∧ v.offsetAnswers = pp.offsetAnswers ∧
+      v.offsetNameservers = pp.offsetNameservers ∧ v.offsetAdditional = pp.offsetAdditional) ∧
+    pp.maybeCompressed = false ∧ (∃ L : C03.Layout pp.packet, C06.PointerFree pp.packet L) ∧
+    (∃ q pp1 pp2, questionRaw0 pp = .ok (some q, pp1) ∧ questionRaw0 { pp with cached := none } = .ok (some q, pp2)) := by
+  obtain ⟨P, hc⟩ := h
+  refine ⟨C11.still_accepted P, P.mc, PlainObj.pointerFree P, ?_⟩
+  let P0 : PlainObj { pp with cached := none } :=
+    ⟨P.hdr, P.q4, P.qls, P.A, P.N, P.R, P.o2, P.o3, P.o4, P.hh, P.hqd, P.hgq, P.hq4, P.hcl, P.hA, P.hN, P.hR, P.hca, P.hcn, P.hcr,
+      P.hqr, P.bytes, P.oq, P.oa, P.on, P.oR, P.mc⟩
+  have hfresh : questionRaw0 { pp with cached := none } = .ok (some (questionOf P), _) := question_read P0 rfl
+  rcases hc with hc | hc
+  · exact ⟨_, _, _, question_read P hc, hfresh⟩
+  · refine ⟨questionOf P, pp, _, ?_, hfresh⟩
+    simp [questionRaw0, hc]
+
+/-- counts and presence (restated from C11) -/
+theorem consistent_counts {pp : PP} (h : Consistent pp) :
+    ∃ P : PlainObj pp, get16 (pp.packet.take 12) 6 = (P.lst .answer).length ∧ get16 (pp.packet.take 12) 8 = (P.lst .nameServers).length ∧
+      get16 (pp.packet.take 12) 10 = (P.lst .additional).length ∧
+      (pp.offsetAnswers = none ↔ P.lst .answer = []) ∧ (pp.offsetNameservers = none ↔ P.lst .nameServers = []) ∧
+      (pp.offsetAdditional = none ↔ P.lst .additional = []) := by
+  obtain ⟨P, _⟩ := h
+  exact ⟨P, C11.emptied_absent P⟩
+
+/-- what decompression / `recompute` leaves of any accepted packet is consistent -/
+theorem after_decompression {p : Bytes} {v : View} (h : parse p = .ok v) (pp0 : PP) :
+    ∃ (L : C03.Layout p) (o : C05.Output p L) (v2 : View), uncompress p = .ok o.bytes ∧ parse o.bytes = .ok v2 ∧
+      Consistent (pp0.rebased o.bytes v2) := by
+  obtain ⟨L, o, v2, hu, h2, P, _⟩ := C11.plain_of_accepted h pp0
+  exact ⟨L, o, v2, hu, h2, P, Or.inl rfl⟩
+
+/-- an operation that changes only the bytes and the section starts, and keeps the question, keeps the cache right -/
+theorem consistent_of_same_question {pp pp' : PP} (P : PlainObj pp) (P' : PlainObj pp') (hq : P'.qls = P.qls) (hq4 : P'.q4 = P.q4)
+    (hc : pp'.cached = pp.cached ∨ pp'.cached = none) (h : pp.cached = none ∨ pp.cached = some (questionOf P)) : Consistent pp' := by
+  refine ⟨P', ?_⟩
+  have e : questionOf P' = questionOf P := by unfold questionOf; rw [hq, hq4]
+  rcases hc with hc | hc
+  · rw [hc, e]; exact h
+  · exact Or.inl hc
+
+/-- **insert** keeps the invariant -/
+theorem insert_answer_consistent {pp : PP} (P : PlainObj pp) (hc : pp.cached = none ∨ pp.cached = some (questionOf P)) (rr : Bytes)
+    (hpc : PieceOK .answer rr P.o2 P.o2) (hsize : pp.packet.length + rr.length ≤ 8192) (hcount : P.A.length < 65535)
+    (hqr : get16 P.hdr 2 / 32768 % 2 = 1) :
+    ∃ pp', insertRR pp .answer rr = .ok (pp', none) ∧ Consistent pp' := by
+  obtain ⟨pp', P', hrun, _, _, _, hq, hq4, _, hfr⟩ := insert_answer P rr hpc hsize hcount hqr
+  exact ⟨pp', hrun, consistent_of_same_question P P' hq hq4 (Or.inl (by rw [hfr])) hc⟩
+
+theorem insert_authority_consistent {pp : PP} (P : PlainObj pp) (hc : pp.cached = none ∨ pp.cached = some (questionOf P)) (rr : Bytes)
+    (hpc : PieceOK .nameServers rr P.o3 P.o3) (hsize : pp.packet.length + rr.length ≤ 8192) (hcount : P.N.length < 65535)
+    (hqr : get16 P.hdr 2 / 32768 % 2 = 1) :
+    ∃ pp', insertRR pp .nameServers rr = .ok (pp', none) ∧ Consistent pp' := by
+  obtain ⟨pp', P', hrun, _, _, _, hq, hq4, _, hfr⟩ := insert_authority P rr hpc hsize hcount hqr
+  exact ⟨pp', hrun, consistent_of_same_question P P' hq hq4 (Or.inl (by rw [hfr])) hc⟩
+
+theorem insert_additional_consistent {pp : PP} (P : PlainObj pp) (hc : pp.cached = none ∨ pp.cached = some (questionOf P)) (rr : Bytes)
+    (hpc : PieceOK .additional rr P.o4 P.o4) (hsize : pp.packet.length + rr.length ≤ 8192) (hcount : P.R.length < 65535) :
+    ∃ pp', insertRR pp .additional rr = .ok (pp', none) ∧ Consistent pp' := by
+  obtain ⟨pp', P', hrun, _, _, _, hq, hq4, _, hfr⟩ := insert_additional P rr hpc hsize hcount
+  exact ⟨pp', hrun, consistent_of_same_question P P' hq hq4 (Or.inl (by rw [hfr])) hc⟩
+
+/-- **delete** keeps the invariant (and empties the cache) -/
+theorem delete_consistent {pp : PP} (P : PlainObj pp) (sec : Section) (hs : sec.isRec = true) {ps1 ps2 : List Bytes} {rc : Bytes}
+    (hsplit : P.lst sec = ps1 ++ rc :: ps2) (c : Cursor) {ne : Nat} {ob oa : Bool}
+    (hr : RRAtPos pp.packet sec ⟨P.start sec + ps1.flatten.length, ne, P.start sec + ps1.flatten.length + rc.length⟩ ob oa)
+    (hoff : c.offset = some (P.start sec + ps1.flatten.length))
+    (hnext : c.offsetNext = P.start sec + ps1.flatten.length + rc.length) (hne : c.nameEnd = ne) :
+    ∃ st, deleteRR pp c = .ok st ∧ st.result = none ∧ Consistent st.pp := by
+  obtain ⟨pp', P', hdel, _, _, _, _, _, _, _, hcache⟩ := P.delete_at sec hs hsplit c hr hoff hnext hne
+  exact ⟨_, hdel, rfl, P', Or.inl hcache⟩
+
+/-- **set_rr_ttl** keeps the invariant -/
+theorem set_ttl_consistent {pp : PP} (P : PlainObj pp) (hc : pp.cached = none ∨ pp.cached = some (questionOf P))
+    (sec : Section) (hs : sec.isRec = true) {ps1 ps2 : List Bytes} {rc : Bytes}
+    (hsplit : P.lst sec = ps1 ++ rc :: ps2) (c : Cursor) {ne : Nat} {ob oa : Bool}
+    (hr : RRAtPos pp.packet sec ⟨P.start sec + ps1.flatten.length, ne, P.start sec + ps1.flatten.length + rc.length⟩ ob oa)
+    (hoff : c.offset = some (P.start sec + ps1.flatten.length)) (hne : c.nameEnd = ne) (h41 : get16 pp.packet ne ≠ 41) (ttl : Nat) :
+    ∃ pp', setRrTtl pp c ttl = .ok pp' ∧ Consistent pp' := by
+  obtain ⟨_, _, _, pp', P', _, _, hrun, _, _, hq, hq4, _, hfr⟩ := P.set_ttl sec hs hsplit c hr hoff hne h41 ttl
+  exact ⟨pp', hrun, consistent_of_same_question P P' hq hq4 (Or.inl (by rw [hfr])) hc⟩
+
+/-- **set_rr_ip** keeps the invariant -/
+theorem set_ip_consistent {pp : PP} (P : PlainObj pp) (hc : pp.cached = none ∨ pp.cached = some (questionOf P))
+    (sec : Section) (hs : sec.isRec = true) {ps1 ps2 : List Bytes} {rc : Bytes}
+    (hsplit : P.lst sec = ps1 ++ rc :: ps2) (c : Cursor) {ne : Nat} {ob oa : Bool}
+    (hr : RRAtPos pp.packet sec ⟨P.start sec + ps1.flatten.length, ne, P.start sec + ps1.flatten.length + rc.length⟩ ob oa)
+    (hoff : c.offset = some (P.start sec + ps1.flatten.length)) (hne : c.nameEnd = ne) (ip : Bytes)
+    (hfam : (get16 pp.packet ne = 1 ∧ ip.length = 4) ∨ (get16 pp.packet ne = 28 ∧ ip.length = 16)) :
+    ∃ pp', setRrIp pp c ip = .ok (pp', none) ∧ Consistent pp' := by
+  obtain ⟨_, _, _, pp', P', _, _, _, hrun, _, _, hq, hq4, _, hfr⟩ := P.set_ip sec hs hsplit c hr hoff hne ip hfam
+  exact ⟨pp', hrun, consistent_of_same_question P P' hq hq4 (Or.inl (by rw [hfr])) hc⟩
+
+theorem take_mid {α} (xs : List α) (y : α) (zs : List α) : (xs ++ y :: zs).take (xs.length + 1) = xs ++ [y] := by
+  induction xs with
+  | nil => simp
+  | cons x xs ih => simp [ih]
+
+/-- **set_raw_name** keeps the invariant; **the cursor still designates the record, and advancing it
+yields the record that followed** (or the end of the section) -/
+theorem set_name_consistent {pp : PP} (P : PlainObj pp) (sec : Section) (hs : sec.isRec = true) {ps1 ps2 : List Bytes} {rc : Bytes}
+    (hsplit : P.lst sec = ps1 ++ rc :: ps2) (c : Cursor) {ne : Nat} {ob oa : Bool}
+    (hr : RRAtPos pp.packet sec ⟨P.start sec + ps1.flatten.length, ne, P.start sec + ps1.flatten.length + rc.length⟩ ob oa)
+    (hoff : c.offset = some (P.start sec + ps1.flatten.length))
+    (hnext : c.offsetNext = P.start sec + ps1.flatten.length + rc.length) (hne : c.nameEnd = ne) (hsec : c.sec = sec)
+    (hleft : c.rrsLeft = ps2.length)
+    (h41 : get16 pp.packet ne ≠ 41) (owner' : List (List UInt8)) (hgo' : GoodLabels owner')
+    (hsize : pp.packet.length + (labSum owner' + 1) - (ne - (P.start sec + ps1.flatten.length)) ≤ 65535) :
+    ∃ (pp' : PP) (c' : Cursor) (P' : PlainObj pp') (rc' : Bytes),
+      setRawName pp c (encLabels owner' ++ [0]) = mOk pp' c' ∧ Consistent pp' ∧
+      P'.lst sec = ps1 ++ rc' :: ps2 ∧ c'.offset = c.offset ∧ c'.offsetNext = P'.start sec + ps1.flatten.length + rc'.length ∧
+      (match ps2 with
+       | [] => nextIncludingOpt pp' c' = .ok none
+       | nx :: _ => ∃ c2, nextIncludingOpt pp' c' = .ok (some c2) ∧
+           c2.offset = some (P'.start sec + (ps1 ++ [rc']).flatten.length) ∧ recBytes pp' c2 = nx) := by
+  obtain ⟨owner, f8, rd, pp', P', hrc, hrun, f1, f2, f3, f4, f5, hcache, _⟩ :=
+    P.set_name sec hs hsplit c hr hoff hnext hne hsec h41 owner' hgo' hsize
+  have hst : P'.start sec = P.start sec := P.start_congr P' sec f3 f2
+  refine ⟨pp', _, P', _, hrun, ⟨P', Or.inl hcache⟩, f1, by simp [Cursor.movedTo, hoff], by simp [Cursor.movedTo, hst], ?_⟩
+  have hcur : CurAt P' sec (ps1.length + 1)
+      (c.movedTo (P.start sec + ps1.flatten.length) (P.start sec + ps1.flatten.length + labSum owner' + 1)
+        (P.start sec + ps1.flatten.length + ((encLabels owner' ++ [0]) ++ f8 ++ put16 rd.length ++ rd).length)) := by
+    refine ⟨by simp [Cursor.movedTo, hsec], Or.inr ⟨_, rfl, ?_, ?_, ?_⟩⟩
+    · simp only [Cursor.movedTo, f1, hst, take_mid]
+      simp; omega
+    · simp only [Cursor.movedTo, f1, hleft]; simp; omega
+    · rw [f1]; simp
+  cases ps2 with
+  | nil =>
+    simp only
+    apply next_none P' sec hs _ _ hcur
+    rw [f1]; simp
+  | cons nx rest =>
+    simp only
+    have hj : ps1.length + 1 < (P'.lst sec).length := by rw [f1]; simp
+    obtain ⟨ne2, ob2, oa2, hr2, hnx⟩ := next_some P' sec hs _ _ hcur hj
+    refine ⟨_, hnx, ?_, ?_⟩
+    · simp only [f1, take_mid]
+    · have hsplit2 : P'.lst sec = (ps1 ++ [(encLabels owner' ++ [0]) ++ f8 ++ put16 rd.length ++ rd]) ++ nx :: rest := by
+        rw [f1]; simp
+      have hw := P'.window sec hs hsplit2
+      have e1 : (P'.lst sec).take (ps1.length + 1) = ps1 ++ [(encLabels owner' ++ [0]) ++ f8 ++ put16 rd.length ++ rd] := by
+        rw [f1, take_mid]
+      have e2 : (P'.lst sec)[ps1.length + 1] = nx := by
+        simp [f1]
+      simp only [recBytes, e1, e2]
+      rw [Nat.add_sub_cancel_left]
+      exact hw
+
+/-- **header setters** keep the invariant while the response bit allows the records present -/
+theorem header_consistent {pp : PP} (P : PlainObj pp) (hc : pp.cached = none ∨ pp.cached = some (questionOf P)) (p' : Bytes)
+    (hs : C12.sameExcept pp.packet p' 0 4) (hqr : get16 p' 2 / 32768 % 2 = 0 → P.A = [] ∧ P.N = []) :
+    Consistent { pp with packet := p' } := by
+  obtain ⟨P', _, _, _, hq, hq4, _⟩ := P.header_set p' hs hqr
+  exact consistent_of_same_question P P' hq hq4 (Or.inl rfl) hc
+
+/-- **rename at object level**: when it succeeds, the object is exactly what a fresh parse of the new
+bytes gives (section starts, EDNS position, count, version, flags, extended rcode; empty cache; the
+flag set, as after `parse`) -/
+theorem rename_fresh (pp pp' : PP) (target source : Bytes) (sfx : Bool)
+    (h : pp.renameWithRawNames target source sfx = .ok (pp', none)) :
+    ∃ v, Fresh pp' pp'.packet v ∧ pp'.offsetEdns = v.offsetEdns ∧ pp'.cached = none := by
+  unfold PP.renameWithRawNames at h
+  cases hr : Dns.renameWithRawNames pp target source sfx with
+  | err e' => rw [hr] at h; simp at h
+  | panic => rw [hr] at h; simp at h
+  | diverge => rw [hr] at h; simp at h
+  | ok packet =>
+    rw [hr] at h
+    simp only at h
+    cases hp : parse packet with
+    | err e' => rw [hp] at h; simp at h
+    | panic => rw [hp] at h; simp at h
+    | diverge => rw [hp] at h; simp at h
+    | ok v =>
+      rw [hp] at h
+      simp only at h
+      split at h
+      · simp at h
+      · rename_i hcond
+        simp only [pure_eq, ok.injEq, Prod.mk.injEq, and_true] at h
+        subst h
+        simp only [Bool.or_eq_true, bne_iff_ne, ne_eq, not_or, Decidable.not_not] at hcond
+        obtain ⟨⟨⟨c1, c2⟩, c3⟩, c4⟩ := hcond
+        exact ⟨v, ⟨hp, rfl, rfl, c1.symm, c2.symm, c3.symm, c4.symm, rfl, rfl, rfl, rfl⟩, rfl, rfl⟩
+
+/-- **recompute** on an object that still has its parse-time flag: the result is consistent -/
+theorem recompute_consistent {pp : PP} {p : Bytes} {v : View} (F : Fresh pp p v) :
+    ∃ pp', pp.recompute = .ok (pp', none) ∧ Consistent pp' := by
+  obtain ⟨L, o, _⟩ := C05.decompress_ok F.hp
+  obtain ⟨v2, h2, _, hrec⟩ := recompute_fresh' F o
+  obtain ⟨P, _⟩ := plainObj_of_output F.hp o h2 pp
+  exact ⟨_, hrec, P, Or.inl rfl⟩
+
+/-- recompute on an object whose flag is cleared changes nothing -/
+theorem recompute_plain (pp : PP) (h : pp.maybeCompressed = false) : pp.recompute = .ok (pp, none) := by
+  unfold PP.recompute
+  simp [h]
+
 end Dns.C08
